@@ -12,9 +12,6 @@ from typing import Dict, List, Optional
 from .interp_keys import nk
 from .vals import EMPTY, NONE, UNKNOWN, Val, join, joinall, mk_bool, mk_int, mk_str
 
-import os as _os
-
-_MAY_INTDIV = bool(_os.environ.get("NV_INTDIV"))
 KRANK = {"N": 0, "I": 1, "Z": 2, "Q": 3, "L": 3.5, "U": 4, "F": 5}  # L: an integer obtained by truncating a library float
 NUMERIC_TAGS = {
     "cls:int": {"I", "Z", "L"},
@@ -63,9 +60,6 @@ class ModelsMixin:
                     fs.add(f"{self.loc(node)}: true division of two library integers `{ast.unparse(node)[:60]}`")
                     return "F"
                 return "Q"
-            if _MAY_INTDIV and isinstance(op, ast.Div) and a in ("I", "Z") and b in ("I", "Z"):
-                fs.add(f"{self.loc(node)}: true division of two integers `{ast.unparse(node)[:60]}` (int data)")
-                return "F"
             if "L" in (a, b) and "F" not in (a, b) and "U" not in (a, b):
                 return "L"
             if isinstance(op, ast.FloorDiv) and KRANK[a] <= 2 and KRANK[b] <= 2:
